@@ -1,22 +1,22 @@
 #!/bin/bash
-# usage: try.sh <patch> ; applies to the repo worktree, runs the C20 quick check, reverts
+# usage: VERIF_REPO=<scratch worktree of the library> try.sh <patch>
+# applies the patch to the library worktree, runs the C20 quick check, prints verdict / translator status / broken obligations, reverts
 export VERIF_REPO="${VERIF_REPO:?set VERIF_REPO to a scratch worktree of the library}"
-cd $VERIF_REPO && git apply "$1" || { echo "PATCH DOES NOT APPLY: $1"; exit 9; }
-cd "$(cd "$(dirname "$0")/../.." && pwd)"
-VERIF_JOBS=4 timeout 1100 ./check C20 --tier quick > /tmp/selftest_c20_out.txt 2>&1
+export VERIF_HOME="$(cd "$(dirname "$0")/../.." && pwd)"
+patch="$(realpath "$1")"
+cd "$VERIF_REPO" && git apply "$patch" || { echo "PATCH DOES NOT APPLY: $1"; exit 9; }
+cd "$VERIF_HOME"
+VERIF_JOBS="${VERIF_JOBS:-4}" timeout 1100 ./check C20 --tier quick > /tmp/selftest_c20_out.txt 2>&1
 rc=$?
 echo "== $1 exit=$rc"
 grep -v conda /tmp/selftest_c20_out.txt | grep -v KNOWN-FINDING | tail -4 | cut -c1-400
 /venv/bin/python - <<'PY'
-import json
-st=json.load(open('"$(cd "$(dirname "$0")/../.." && pwd)"/coq/Gen/STATUS.json'))['Validate']
-print('translator:', st['status'], st.get('reason','')[:200])
-import glob,os
-ev=sorted(glob.glob('"$(cd "$(dirname "$0")/../.." && pwd)"/evidence/C20*.json'), key=os.path.getmtime)
-if ev:
-    d=json.load(open(ev[-1]))
-    s=json.dumps(d)
-    import re
-    print('broken:', [b for b in re.findall(r'theorem:[A-Za-z_0-9]+', s)][:12])
+import json, os, re
+home = os.environ['VERIF_HOME']
+st = json.load(open(os.path.join(home, 'coq/Gen/STATUS.json')))['Validate']
+print('translator:', st['status'], st.get('reason', '')[:200])
+s = open(os.path.join(home, 'evidence/C20.json')).read()
+print('broken:', sorted(set(re.findall(r'theorem:GenTie_[A-Za-z_0-9]+', s)))[:14])
 PY
-cd $VERIF_REPO && git checkout -q -- . && git status --short | head -3
+cd "$VERIF_HOME" && git checkout -q -- evidence 2>/dev/null
+cd "$VERIF_REPO" && git checkout -q -- . && git status --short | head -3
